@@ -301,6 +301,7 @@ def assemble(template_path, repo=None):
             # gather sub-directives
             i += 1
             spec_lines, loop_ins, at_ins = [], {}, []
+            rewrites = []
             mode = None
             while i < len(tl) and tl[i].strip() != '//@endfn':
                 l = tl[i]
@@ -314,6 +315,11 @@ def assemble(template_path, repo=None):
                         n = int(p2[0])
                         loop_ins.setdefault(n, {'ghost': k2.get('ghost'), 'lines': []})
                         mode = ('loop', n)
+                    elif scmd == 'rewrite':
+                        # stated, recorded token substitution for a std operator impl Verus cannot specify
+                        p2, k2 = _parse_args(srest)
+                        rewrites.append((p2[0], p2[1], k2.get('why', '')))
+                        mode = None
                     elif scmd == 'at':
                         p2, k2 = _parse_args(srest)
                         at_ins.append({'where': p2[0], 'text': p2[1], 'nth': int(k2.get('nth', 1)), 'lines': []})
@@ -366,12 +372,41 @@ def assemble(template_path, repo=None):
                 o = occ[a['nth'] - 1]
                 if a['where'] == 'after':
                     o += len(a['text'])
+                elif a['where'] == 'before-stmt':
+                    # start of the statement that contains the text: just after the previous `;`, `{` or `}`
+                    k = o - 1
+                    while k > bo and not (s.code[k] and s.text[k] in ';{}'):
+                        k -= 1
+                    o = k + 1
+                elif a['where'] == 'after-stmt':
+                    depth = 0
+                    k = o
+                    while k < bc:
+                        if s.code[k]:
+                            ch = s.text[k]
+                            if ch in '([{':
+                                depth += 1
+                            elif ch in ')]}':
+                                depth -= 1
+                                if depth < 0:
+                                    break
+                            elif ch == ';' and depth == 0:
+                                k += 1
+                                break
+                        k += 1
+                    o = k
                 elif a['where'] != 'before':
                     raise TemplateError(f'at {a["where"]}?')
                 insertions.append((o, '\n' + '\n'.join(a['lines']) + '\n'))
             verb = s.text[sig:bc + 1]
             assembled = apply_insertions(verb, sig, insertions)
             verb_cmp = verb
+            for a_, b_, why in rewrites:
+                if a_ not in verb_cmp:
+                    raise AnchorLost(f'{rel}: fn {name}: rewrite source {a_!r} not found')
+                assembled = assembled.replace(a_, b_)
+                verb_cmp = verb_cmp.replace(a_, b_)
+                out.dropped.append(f'{rel}: fn {name}: REWRITE `{a_}` -> `{b_}` ({why})')
             for k, v in assoc.items():
                 assembled = re.sub(re.escape(k) + r'(?![A-Za-z0-9_])', v, assembled)
                 verb_cmp = re.sub(re.escape(k) + r'(?![A-Za-z0-9_])', v, verb_cmp)
